@@ -40,6 +40,30 @@ pub struct Exec {
     pub generator: UuidGenerator,
     pub txids: TxIds,
     pub out: Vec<(String, String)>,
+    // what the observer has counted so far on this level (for the judges)
+    pub price: u64,
+    pub issued: u64,
+    pub n_adds: u64,
+    pub n_removed: u64,
+    pub sum_exec: u128,
+}
+
+pub fn listing(l: &PriceLevel) -> String {
+    let mut list: Vec<Order> = l.iter_orders().iter().map(|a| **a).collect();
+    canon_sort(&mut list);
+    show_list(&list, show_order)
+}
+
+pub fn show_stats(l: &PriceLevel) -> String {
+    let st = l.stats();
+    format!(
+        "{},{},{},{},{}",
+        st.orders_added(),
+        st.orders_removed(),
+        st.orders_executed(),
+        st.quantity_executed(),
+        st.value_executed()
+    )
 }
 
 pub fn show_tx(t: &Transaction, txids: &mut TxIds) -> String {
@@ -66,20 +90,13 @@ pub fn show_match(r: &MatchResult, txids: &mut TxIds) -> String {
 }
 
 pub fn show_state(l: &PriceLevel) -> String {
-    let mut list: Vec<Order> = l.iter_orders().iter().map(|a| **a).collect();
-    canon_sort(&mut list);
-    let st = l.stats();
     format!(
-        "vis={} hid={} cnt={} list={} stats={},{},{},{},{}",
+        "vis={} hid={} cnt={} list={} stats={}",
         l.visible_quantity(),
         l.hidden_quantity(),
         l.order_count(),
-        show_list(&list, show_order),
-        st.orders_added(),
-        st.orders_removed(),
-        st.orders_executed(),
-        st.quantity_executed(),
-        st.value_executed()
+        listing(l),
+        show_stats(l)
     )
 }
 
@@ -90,11 +107,24 @@ impl Exec {
             generator: UuidGenerator::new(Uuid::from_u128(NS)),
             txids: TxIds::new(),
             out: Vec::new(),
+            price: 0,
+            issued: 0,
+            n_adds: 0,
+            n_removed: 0,
+            sum_exec: 0,
         }
     }
 
     fn emit(&mut self, model_in: impl Into<String>, impl_out: impl Into<String>) {
         self.out.push((model_in.into(), impl_out.into()));
+    }
+
+    fn judge_stats(&mut self) {
+        let st = show_stats(&self.lvl);
+        self.emit(
+            format!("judge.C15 {} {} {} {} {}", self.price, st, self.n_adds, self.n_removed, self.sum_exec),
+            "J C15 ok",
+        );
     }
 
     /// one op; returns false if the line is not understood
@@ -147,37 +177,111 @@ impl Exec {
                 let Ok(p) = p.parse::<u64>() else { return false };
                 self.lvl = PriceLevel::new(p);
                 self.generator = UuidGenerator::new(Uuid::from_u128(NS));
+                self.price = p;
+                self.issued = 0;
+                self.n_adds = 0;
+                self.n_removed = 0;
+                self.sum_exec = 0;
                 self.emit(line, "new");
             }
             ["add", o] => {
                 let Some(o) = parse_order(o) else { return false };
                 match catch_unwind(AssertUnwindSafe(|| self.lvl.add_order(o))) {
-                    Ok(r) => self.emit(line, format!("add ret={}", show_order(&r))),
+                    Ok(r) => {
+                        self.n_adds += 1;
+                        self.emit(line, format!("add ret={}", show_order(&r)));
+                        self.judge_stats();
+                    }
                     Err(_) => self.emit(line, "PANIC"),
                 }
             }
             ["match", q, taker] => {
                 let (Ok(q), Some(taker)) = (q.parse::<u64>(), parse_id(taker)) else { return false };
+                let pre = listing(&self.lvl);
                 match catch_unwind(AssertUnwindSafe(|| self.lvl.match_order(q, taker, &self.generator))) {
                     Ok(r) => {
-                        let s = show_match(&r, &mut self.txids);
-                        self.emit(line, format!("match {s}"));
+                        let post = listing(&self.lvl);
+                        let txs: Vec<String> = r.transactions.as_vec().iter().map(|t| show_tx(t, &mut self.txids)).collect();
+                        let txs = format!("[{}]", txs.join(","));
+                        let complete = if r.is_complete { 1 } else { 0 };
+                        let filled = show_list(&r.filled_order_ids, show_id);
+                        self.emit(line, format!("match txs={} rem={} complete={} filled={}", txs, r.remaining_quantity, complete, filled));
+                        self.emit(
+                            format!(
+                                "judge.C02 {} {} {} {} {} {} {} {} {} {}",
+                                q, show_id(&taker), self.price, self.issued, txs, r.remaining_quantity, complete, filled, pre, post
+                            ),
+                            "J C02 ok",
+                        );
+                        self.emit(format!("judge.C06 {} {} {} {} {}", q, txs, r.remaining_quantity, pre, post), "J C06 ok");
+                        self.issued += r.transactions.as_vec().len() as u64;
+                        self.sum_exec += r.transactions.as_vec().iter().map(|t| t.quantity as u128).sum::<u128>();
+                        self.judge_stats();
                     }
                     Err(_) => self.emit(line, "PANIC"),
                 }
             }
             ["upd", rest @ ..] => {
                 let Some(u) = parse_update(rest) else { return false };
-                match catch_unwind(AssertUnwindSafe(|| self.lvl.update_order(u))) {
-                    Ok(Ok(o)) => self.emit(line, format!("upd ok={}", show_opt_order(o.as_deref()))),
-                    Ok(Err(pricelevel::PriceLevelError::InvalidOperation { .. })) => self.emit(line, "upd err=SamePrice"),
-                    Ok(Err(e)) => self.emit(line, format!("upd err=Other:{e}")),
+                let pre = listing(&self.lvl);
+                let removal = match u {
+                    pricelevel::OrderUpdate::Cancel { .. } => true,
+                    pricelevel::OrderUpdate::UpdatePrice { new_price, .. } => new_price != self.price,
+                    pricelevel::OrderUpdate::UpdatePriceAndQuantity { new_price, .. } => new_price != self.price,
+                    pricelevel::OrderUpdate::Replace { price, .. } => price != self.price,
+                    pricelevel::OrderUpdate::UpdateQuantity { .. } => false,
+                };
+                let outtok = match catch_unwind(AssertUnwindSafe(|| self.lvl.update_order(u))) {
+                    Ok(Ok(o)) => {
+                        if removal && o.is_some() {
+                            self.n_removed += 1;
+                        }
+                        format!("ok={}", show_opt_order(o.as_deref()))
+                    }
+                    Ok(Err(pricelevel::PriceLevelError::InvalidOperation { .. })) => "err=SamePrice".to_string(),
+                    Ok(Err(e)) => format!("err=Other:{}", e.to_string().replace(' ', "_")),
+                    Err(_) => {
+                        self.emit(line, "PANIC");
+                        return true;
+                    }
+                };
+                self.emit(line, format!("upd {outtok}"));
+                let post = listing(&self.lvl);
+                self.emit(format!("judge.C07 {} {} {} {} {}", self.price, pre, post, outtok, rest.join(" ")), "J C07 ok");
+                self.judge_stats();
+            }
+            ["read", kind] => {
+                // read-only calls: must not change any later result (C07); outputs are not compared here
+                let r = catch_unwind(AssertUnwindSafe(|| {
+                    match *kind {
+                        "snapshot" => { let _ = self.lvl.snapshot(); }
+                        "package" => { let _ = self.lvl.snapshot_package(); }
+                        "json" => { let _ = self.lvl.snapshot_to_json(); }
+                        "display" => { let _ = self.lvl.to_string(); }
+                        "serde" => { let _ = serde_json::to_string(&self.lvl); }
+                        "stats" => { let st = self.lvl.stats(); let _ = (st.to_string(), st.average_execution_price(), st.average_waiting_time(), st.time_since_last_execution()); }
+                        "list" => { let _ = self.lvl.iter_orders(); }
+                        _ => { let _ = (self.lvl.price(), self.lvl.visible_quantity(), self.lvl.hidden_quantity(), self.lvl.total_quantity(), self.lvl.order_count()); }
+                    }
+                }));
+                match r {
+                    Ok(()) => self.emit(line, "read"),
                     Err(_) => self.emit(line, "PANIC"),
                 }
             }
             ["state"] => {
                 let s = show_state(&self.lvl);
                 self.emit(line, format!("state {s}"));
+                self.emit(
+                    format!(
+                        "judge.C01 {} {} {} {}",
+                        self.lvl.visible_quantity(),
+                        self.lvl.hidden_quantity(),
+                        self.lvl.order_count(),
+                        listing(&self.lvl)
+                    ),
+                    "J C01 ok",
+                );
             }
             _ => return false,
         }
